@@ -20,6 +20,7 @@ import (
 	"go/ast"
 	"go/types"
 	"reflect"
+	"slices"
 	"strconv"
 
 	"go.uber.org/nilaway/config"
@@ -139,7 +140,9 @@ func createFakeFuncDecl(pass *analysishelper.EnhancedPass, funcLit *ast.FuncLit,
 		Name: ident,
 		Type: &ast.FuncType{
 			Params: &ast.FieldList{
-				List: append(funcLit.Type.Params.List, fakeFields...),
+				// The parameter list belongs to the (shared) syntax tree: copy it instead of appending
+				// to it, which would write into its spare capacity.
+				List: append(slices.Clone(funcLit.Type.Params.List), fakeFields...),
 			},
 		},
 		Body: funcLit.Body,
